@@ -37,7 +37,9 @@ let rec parse_val (toks : ostring list ref) : value =
     | 'S' -> VStr (bytes_of_hex body)
     | 'I' -> (match split_colon body with [k; n] -> VGoInt (kind_of_string k, z_of_dec n) | _ -> failwith "I")
     | 'G' -> VGoFloat (bytes_of_hex body)
-    | 'M' -> (match split_colon body with [ns; off] -> VTime { t_ns = z_of_dec ns; t_off = z_of_dec off } | _ -> failwith "M")
+    | 'M' -> (match split_colon body with
+        | [ns; off] | [ns; off; _] -> VTime { t_ns = z_of_dec ns; t_off = z_of_dec off }   (* a zone name, if any, is not part of the model's time *)
+        | _ -> failwith "M")
     | 'A' | 'Z' -> let n = int_of_string body in VArr (List.init n (fun _ -> parse_val toks))
     | 'O' | 'Y' ->
       let n = int_of_string body in
